@@ -98,7 +98,8 @@ class RegSystem:
                 c = self.cond([i])
                 yi = J(self.y[i][None])
                 pred = c.affine_marginal_transformation(o.post)
-                ev = o.ev + float(np.asarray(pred.evaluate_ln(yi))[0, 0])
+                # the predictive log-density through both evaluation conventions (all pairs / element-wise), alternately
+                ev = o.ev + (float(np.asarray(pred.evaluate_ln(yi))[0, 0]) if i % 2 == 0 else float(np.asarray(pred.evaluate_ln(yi, element_wise=True))[0]))
                 post = c.affine_conditional_transformation(o.post).condition_on_x(yi)
                 # route (c'): the likelihood factors multiplied in one at a time, in this order, with covariance
                 # updates requested always / alternately; scalar observations also as hand-built rank-one factors
@@ -248,7 +249,7 @@ def run_kalman(shard, ctx):
         with ctx.guard("kalman.pair_step", facts) as g2:
             pair = trans.affine_joint_transformation(filt_pair)  # over (z_{t-1}, z_t)
             py2 = emis_pair.affine_marginal_transformation(pair)
-            ev_pair = ev_pair + np.asarray(py2.evaluate_ln(J(xs[t - 1][None])))[:, 0]
+            ev_pair = ev_pair + np.asarray(py2.evaluate_ln(J(np.tile(xs[t - 1][None], (py2.R, 1))), element_wise=True))  # element-wise convention
             post_pair = emis_pair.affine_conditional_transformation(pair).condition_on_x(J(xs[t - 1][None]))
             filt_pair = post_pair.get_marginal(jnp.arange(Dz, 2 * Dz))
         ctx.count("states")
